@@ -34,6 +34,9 @@ type fsItem struct {
 	height uint64
 	blk    *types.Block
 	cert   *types.BlockCert
+	need   int // votes a certificate of this block needs
+	avail  int // committee members whose keys the scenario holds
+	stuck  bool
 }
 
 type fsReplica struct {
@@ -45,18 +48,23 @@ type fsReplica struct {
 	batches int
 }
 
-// clockPump emulates the passage of time for code parked on the virtual clock (only the full-sync applier parks: it
-// sleeps 1 s after an invalid block and waits 20 s for a header that is not coming): short sleeps are released at once,
-// long timers after a real 2 ms.
+// clockPump emulates the passage of time for code parked on the virtual clock (only the full-sync applier parks): its
+// 1 s sleep after an invalid block is released at once.  Its 20 s wait for the next header is NOT released here: a
+// timer released while the applier is merely slow (loaded machine) would make it take the time-out branch although
+// the header is in the channel; fsCatchup releases those timers only when the applier is waiting for a header that
+// is not going to arrive.
 func clockPump(c *vclock.Clock) {
 	for s := range c.Parked {
 		if s.D <= 2*time.Second {
 			c.Release(s)
-		} else {
-			go func(s *vclock.Sleeper) {
-				time.Sleep(2 * time.Millisecond)
-				c.Release(s)
-			}(s)
+		}
+	}
+}
+
+func releaseLongTimers(c *vclock.Clock) {
+	for _, s := range c.Sleepers() {
+		if s.D > 2*time.Second {
+			c.Release(s)
 		}
 	}
 }
@@ -104,12 +112,15 @@ func (h *hist) fsEnqueue(blk *types.Block, signers []int, need int) {
 	if h.fs == nil {
 		return
 	}
-	it := fsItem{height: blk.Height(), blk: blk}
+	it := fsItem{height: blk.Height(), blk: blk, need: need, avail: len(signers)}
 	flags := blk.Header.Flags()
 	must := flags.HasFlag(types.IdentityUpdate) || flags.HasFlag(types.Snapshot) || flags.HasFlag(types.NewGenesis)
 	if need >= 1 && len(signers) >= need && (must || h.rnd.Intn(3) == 0) {
 		it.cert = h.w.Cert(blk, signers)
 	}
+	// a block that full sync only takes with a certificate but for which none can exist in this tiny network (every
+	// committee member is non-approved: zero required votes, and an empty certificate counts as missing)
+	it.stuck = must && it.cert == nil
 	h.fs.queue = append(h.fs.queue, it)
 	h.fs.obsAt[blk.Height()] = h.ref.n.Obs()
 }
@@ -119,6 +130,25 @@ func (h *hist) fsEnqueue(blk *types.Block, signers []int, need int) {
 func (h *hist) fsCatchup(why string) {
 	fs := h.fs
 	if fs == nil {
+		return
+	}
+	if h.pendingEpoch != nil {
+		h.pendingEpoch(fs.r)
+	}
+	for i, it := range fs.queue {
+		if !it.stuck {
+			continue
+		}
+		// no peer could serve this stretch by full sync: the replica takes it block by block, like the others
+		for _, x := range fs.queue[:i+1] {
+			if err := fs.r.n.Add(sim.Encode(x.blk)); err != nil {
+				panic(fmt.Sprintf("fs replica: plain insertion of block %d failed: %v", x.height, err))
+			}
+		}
+		h.out.Emit(tr.M{"ev": "CatchupSkipped", "hid": h.id, "from": fs.queue[0].height, "to": it.height, "need": it.need, "avail": it.avail,
+			"why": "a block full sync takes only with a certificate, and no certificate can exist for it here"})
+		fs.queue = append([]fsItem(nil), fs.queue[i+1:]...)
+		h.fsCatchup(why)
 		return
 	}
 	last := -1
@@ -141,7 +171,13 @@ func (h *hist) fsCatchup(why string) {
 	}
 	var blocks []*models.ProtoGossipBlockRange_Block
 	certs, idupd := 0, 0
+	var shape [][5]int
 	for _, it := range items {
+		c := 0
+		if it.cert != nil {
+			c = len(it.cert.Signatures)
+		}
+		shape = append(shape, [5]int{int(it.height), int(it.blk.Header.Flags()), c, it.need, it.avail})
 		if it.blk.Header.ProposedHeader != nil && it.blk.Body != nil {
 			n.Ipfs.Add(it.blk.Body.ToBytes(), false)
 		}
@@ -169,8 +205,30 @@ func (h *hist) fsCatchup(why string) {
 	var herr, serr error
 	h.inZone(fs.r, func() {
 		herr = fs.peer.HandleStream(raw)
-		if herr == nil {
+		if herr != nil {
+			return
+		}
+		done := make(chan struct{})
+		go func() {
+			defer close(done)
 			serr = vb.FullSync(n.Chain, n.Ipfs, n.App, collector.NewStatsCollector())
+		}()
+		// the applier's header time-outs fire only when it is waiting in vain: every header it was sent has been taken
+		// (a re-requested batch after a refused block never gets an answer here), or nothing moved for 3 s of real time
+		last, since := vb.Received(), time.Now()
+		for {
+			select {
+			case <-done:
+				return
+			case <-time.After(5 * time.Millisecond):
+			}
+			r := vb.Received()
+			if r != last {
+				last, since = r, time.Now()
+			}
+			if r == 0 || time.Since(since) > 3*time.Second {
+				releaseLongTimers(h.w.Clock)
+			}
 		}
 	})
 	verdict, msg := "ok", ""
@@ -185,7 +243,7 @@ func (h *hist) fsCatchup(why string) {
 	}
 	fs.batches++
 	line := tr.M{"ev": "Catchup", "hid": h.id, "replica": "fs", "from": from, "to": to, "n": len(items), "certs": certs, "idupd": idupd,
-		"why": why, "verdict": verdict, "msg": msg, "head": head, "obs": n.Obs(), "reorgs": h.nReorgs}
+		"why": why, "shape": shape, "known": fs.peer.KnownHeight(), "verdict": verdict, "msg": msg, "head": head, "obs": n.Obs(), "reorgs": h.nReorgs}
 	if ro, ok := fs.obsAt[head]; ok {
 		line["refobs"] = ro
 	} else {
